@@ -91,7 +91,7 @@ def run(ctx):
         eq(ctx, "R1", f"mass of '{text}' (labile H as natural H) = sum of residue masses", I.getattr(s, "mass"), hmass,
            fsite(ctx, "fasta.Molecule.__init__"))
         if codes == "ABCA":
-            st = I.heap[lab.id]["structure"]
+            st = I.getattr(lab, "structure")
             if ref is None:
                 ref = st
             ctx.check(st == ref, "R1", f"'{text}': the formula does not depend on residue order, spaces or text after '*'",
